@@ -14,55 +14,110 @@
 (***************************************************************************)
 EXTENDS Integers, Sequences, FiniteSets, TLC
 
-(* class record: units, and the escaped spellings ("" = spelling not available) *)
-Cls(n, u, bs, named, x, uu, ub, rawOK) ==
-  [name |-> n, units |-> u, bs |-> bs, named |-> named, x |-> x, u |-> uu, ub |-> ub, rawOK |-> rawOK]
+(* class record: units, and the escaped spellings ("" = spelling not available).                     *)
+(* The classes split the code units wherever the value of a NEIGHBOURING unit can matter to a printer *)
+(* or a lexer: NUL and what follows it (an octal digit, 8/9, the neighbours `/` and `:` of the digit  *)
+(* range, anything else, the end), the pieces `<` `/` `script` of the HTML end tag in three letter    *)
+(* cases and a near miss, `$` and `{`, CR and LF, the quote characters, the C0 controls with their    *)
+(* own short escapes, the 0xFF/0x100 boundary of `\xHH`, both ends of both surrogate ranges and their *)
+(* outer neighbours, U+FEFF/U+FFFF, the first and last astral code point, and the text `use strict`.  *)
+Cls(n, u, bs, named, x, uu, ub, oct, rawOK) ==
+  [name |-> n, units |-> u, bs |-> bs, named |-> named, x |-> x, u |-> uu, ub |-> ub, oct |-> oct, rawOK |-> rawOK]
 
 Classes == {
-  Cls("letter", <<97>>,  "",     "",    "\\x61", "\\u0061", "\\u{61}", TRUE),
-  Cls("squote", <<39>>,  "\\'",  "",    "\\x27", "\\u0027", "\\u{27}", TRUE),
-  Cls("dquote", <<34>>,  "\\\"", "",    "\\x22", "\\u0022", "\\u{22}", TRUE),
-  Cls("btick",  <<96>>,  "\\`",  "",    "\\x60", "\\u0060", "\\u{60}", TRUE),
-  Cls("bslash", <<92>>,  "\\\\", "",    "\\x5C", "\\u005C", "\\u{5c}", FALSE),
-  Cls("dollar", <<36>>,  "\\$",  "",    "\\x24", "\\u0024", "\\u{24}", TRUE),
-  Cls("lbrace", <<123>>, "\\{",  "",    "\\x7B", "\\u007B", "\\u{7B}", TRUE),
-  Cls("lf",     <<10>>,  "",     "\\n", "\\x0A", "\\u000A", "\\u{A}",  TRUE),
-  Cls("cr",     <<13>>,  "",     "\\r", "\\x0D", "\\u000D", "\\u{D}",  TRUE),
-  Cls("ls",     <<8232>>, "",    "",    "",      "\\u2028", "\\u{2028}", TRUE),
-  Cls("ps",     <<8233>>, "",    "",    "",      "\\u2029", "\\u{2029}", TRUE),
-  Cls("nuldigit", <<0, 49>>, "", "",    "\\x001", "\\u00001", "\\u{0}1", TRUE),
-  Cls("hisurr", <<55357>>, "",   "",    "",      "\\uD83D", "\\u{D83D}", FALSE),
-  Cls("losurr", <<56832>>, "",   "",    "",      "\\uDE00", "\\u{DE00}", FALSE),
-  Cls("latin1", <<233>>, "",     "",    "\\xE9", "\\u00E9", "\\u{E9}", TRUE),
-  Cls("bmp",    <<20013>>, "",   "",    "",      "\\u4E2D", "\\u{4e2d}", TRUE),
-  Cls("astral", <<55357, 56832>>, "", "", "",    "\\uD83D\\uDE00", "\\u{1F600}", TRUE),
-  Cls("script", <<60, 47, 115, 99, 114, 105, 112, 116>>, "", "", "\\x3C/script", "\\u003C/script", "\\u{3C}/script", TRUE) }
+  Cls("letter", <<97>>,  "",     "",    "\\x61", "\\u0061", "\\u{61}", "\\141", TRUE),
+  Cls("squote", <<39>>,  "\\'",  "",    "\\x27", "\\u0027", "\\u{27}", "\\047", TRUE),
+  Cls("dquote", <<34>>,  "\\\"", "",    "\\x22", "\\u0022", "\\u{22}", "\\042", TRUE),
+  Cls("btick",  <<96>>,  "\\`",  "",    "\\x60", "\\u0060", "\\u{60}", "\\140", TRUE),
+  Cls("bslash", <<92>>,  "\\\\", "",    "\\x5C", "\\u005C", "\\u{5c}", "\\134", FALSE),
+  Cls("dollar", <<36>>,  "\\$",  "",    "\\x24", "\\u0024", "\\u{24}", "\\044", TRUE),
+  Cls("lbrace", <<123>>, "\\{",  "",    "\\x7B", "\\u007B", "\\u{7B}", "\\173", TRUE),
+  Cls("lf",     <<10>>,  "",     "\\n", "\\x0A", "\\u000A", "\\u{A}",  "\\012", TRUE),
+  Cls("cr",     <<13>>,  "",     "\\r", "\\x0D", "\\u000D", "\\u{D}",  "\\015", TRUE),
+  Cls("ls",     <<8232>>, "",    "",    "",      "\\u2028", "\\u{2028}", "", TRUE),
+  Cls("ps",     <<8233>>, "",    "",    "",      "\\u2029", "\\u{2029}", "", TRUE),
+  Cls("nul",    <<0>>,   "\\0",  "",    "\\x00", "\\u0000", "\\u{0}",  "\\000", TRUE),
+  Cls("d0",     <<48>>,  "",     "",    "\\x30", "\\u0030", "\\u{30}", "\\060", TRUE),
+  Cls("d7",     <<55>>,  "",     "",    "\\x37", "\\u0037", "\\u{37}", "\\067", TRUE),
+  Cls("d8",     <<56>>,  "",     "",    "\\x38", "\\u0038", "\\u{38}", "\\8",   TRUE),
+  Cls("d9",     <<57>>,  "",     "",    "\\x39", "\\u0039", "\\u{39}", "\\9",   TRUE),
+  Cls("slash",  <<47>>,  "\\/",  "",    "\\x2F", "\\u002F", "\\u{2f}", "\\057", TRUE),
+  Cls("colon",  <<58>>,  "",     "",    "\\x3A", "\\u003A", "\\u{3a}", "\\072", TRUE),
+  Cls("lt",     <<60>>,  "",     "",    "\\x3C", "\\u003C", "\\u{3C}", "\\074", TRUE),
+  Cls("scr",    <<115, 99, 114, 105, 112, 116>>, "", "", "\\x73cript", "\\u0073cript", "\\u{73}cript", "\\163cript", TRUE),
+  Cls("scrU",   <<83, 67, 82, 73, 80, 84>>,      "", "", "\\x53CRIPT", "\\u0053CRIPT", "\\u{53}CRIPT", "\\123CRIPT", TRUE),
+  Cls("scrM",   <<115, 99, 114, 73, 112, 84>>,   "", "", "\\x73crIpT", "\\u0073crIpT", "\\u{73}crIpT", "\\163crIpT", TRUE),
+  Cls("scrip",  <<115, 99, 114, 105, 112>>,      "", "", "\\x73crip",  "\\u0073crip",  "\\u{73}crip",  "\\163crip",  TRUE),
+  Cls("script", <<60, 47, 115, 99, 114, 105, 112, 116>>, "", "", "\\x3C/script", "\\u003C/script", "\\u{3C}/script", "\\074/script", TRUE),
+  Cls("bel",    <<7>>,   "",     "",    "\\x07", "\\u0007", "\\u{7}",  "\\007", TRUE),
+  Cls("bsp",    <<8>>,   "",     "\\b", "\\x08", "\\u0008", "\\u{8}",  "\\010", TRUE),
+  Cls("tab",    <<9>>,   "",     "\\t", "\\x09", "\\u0009", "\\u{9}",  "\\011", TRUE),
+  Cls("vt",     <<11>>,  "",     "\\v", "\\x0B", "\\u000B", "\\u{b}",  "\\013", TRUE),
+  Cls("ff",     <<12>>,  "",     "\\f", "\\x0C", "\\u000C", "\\u{C}",  "\\014", TRUE),
+  Cls("esc",    <<27>>,  "",     "",    "\\x1B", "\\u001B", "\\u{1b}", "\\033", TRUE),
+  Cls("del",    <<127>>, "",     "",    "\\x7F", "\\u007F", "\\u{7F}", "\\177", TRUE),
+  Cls("c1",     <<133>>, "",     "",    "\\x85", "\\u0085", "\\u{85}", "\\205", TRUE),
+  Cls("nbsp",   <<160>>, "",     "",    "\\xA0", "\\u00A0", "\\u{A0}", "\\240", TRUE),
+  Cls("latin1", <<233>>, "",     "",    "\\xE9", "\\u00E9", "\\u{E9}", "\\351", TRUE),
+  Cls("xff",    <<255>>, "",     "",    "\\xFF", "\\u00FF", "\\u{FF}", "\\377", TRUE),
+  Cls("x100",   <<256>>, "",     "",    "",      "\\u0100", "\\u{100}", "", TRUE),
+  Cls("bmp",    <<20013>>, "",   "",    "",      "\\u4E2D", "\\u{4e2d}", "", TRUE),
+  Cls("feff",   <<65279>>, "",   "",    "",      "\\uFEFF", "\\u{FEFF}", "", TRUE),
+  Cls("ffff",   <<65535>>, "",   "",    "",      "\\uFFFF", "\\u{FFFF}", "", TRUE),
+  Cls("d7ff",   <<55295>>, "",   "",    "",      "\\uD7FF", "\\u{D7FF}", "", TRUE),
+  Cls("e000",   <<57344>>, "",   "",    "",      "\\uE000", "\\u{E000}", "", TRUE),
+  Cls("hisurr", <<55357>>, "",   "",    "",      "\\uD83D", "\\u{D83D}", "", FALSE),
+  Cls("hismin", <<55296>>, "",   "",    "",      "\\uD800", "\\u{D800}", "", FALSE),
+  Cls("hismax", <<56319>>, "",   "",    "",      "\\uDBFF", "\\u{DBFF}", "", FALSE),
+  Cls("losurr", <<56832>>, "",   "",    "",      "\\uDE00", "\\u{DE00}", "", FALSE),
+  Cls("losmin", <<56320>>, "",   "",    "",      "\\uDC00", "\\u{DC00}", "", FALSE),
+  Cls("losmax", <<57343>>, "",   "",    "",      "\\uDFFF", "\\u{DFFF}", "", FALSE),
+  Cls("astral", <<55357, 56832>>, "", "", "",    "\\uD83D\\uDE00", "\\u{1F600}", "", TRUE),
+  Cls("astmin", <<55296, 56320>>, "", "", "",    "\\uD800\\uDC00", "\\u{10000}", "", TRUE),
+  Cls("astmax", <<56319, 57343>>, "", "", "",    "\\uDBFF\\uDFFF", "\\u{10FFFF}", "", TRUE),
+  Cls("usestrict", <<117, 115, 101, 32, 115, 116, 114, 105, 99, 116>>, "", "", "\\x75se strict", "\\u0075se strict", "\\u{75}se strict", "\\165se strict", TRUE),
+  Cls("linecont", <<>>,  "\\\n", "",    "",      "",        "",        "", FALSE) }
 
 ClassNames == {c.name : c \in Classes}
 ClassOf(n) == CHOOSE c \in Classes : c.name = n
-Spellings == {"raw", "bs", "named", "x", "u", "ub"}
+Spellings == {"raw", "bs", "named", "x", "u", "ub", "oct"}
 Quotes == {"sq", "dq", "tpl", "tag"}
 IsTpl(q) == q \in {"tpl", "tag"}
+QuoteUnit(q) == IF q = "sq" THEN 39 ELSE IF q = "dq" THEN 34 ELSE 96
 
 (* is spelling sp of class n allowed (as a single element) inside quote kind q? *)
 Allowed(n, sp, q) ==
   LET c == ClassOf(n) IN
   CASE sp = "raw" -> /\ c.rawOK
-                     /\ ~(n \in {"lf", "cr"} /\ ~IsTpl(q))          \* LineTerminator inside '...' or "..."
+                     /\ ~(n \in {"lf", "cr"} /\ ~IsTpl(q))          \* <LF>/<CR> inside '...' or "..." (U+2028/9 are allowed since ES2019)
                      /\ ~(n = "squote" /\ q = "sq") /\ ~(n = "dquote" /\ q = "dq") /\ ~(n = "btick" /\ IsTpl(q))
     [] sp = "bs" -> c.bs # ""
     [] sp = "named" -> c.named # ""
     [] sp = "x" -> c.x # ""
-    [] sp = "u" -> TRUE
-    [] sp = "ub" -> TRUE
+    [] sp = "u" -> c.u # ""
+    [] sp = "ub" -> c.ub # ""
+    [] sp = "oct" -> c.oct # "" /\ ~IsTpl(q)          \* legacy octal / \8 \9: never in templates, sloppy mode only
 
 Elem(n, sp) == <<n, sp>>
 ElemsFor(q, names) == {Elem(n, sp) : n \in names, sp \in Spellings} \cap {e \in ClassNames \X Spellings : Allowed(e[1], e[2], q)}
 
-(* sequence-level restriction: in a template a raw `$` directly followed by a raw `{` starts a substitution *)
+(* does the source text of element e begin with a decimal digit? *)
+StartsWithDigit(e) == e[2] = "raw" /\ e[1] \in {"d0", "d7", "d8", "d9"}
+
+(* sequence-level restrictions:                                                                  *)
+(*  - in a template a raw `$` directly followed by a raw `{` starts a substitution               *)
+(*  - `\0` directly followed by an octal digit would be a longer (legacy octal) escape; followed  *)
+(*    by 8 or 9 it is the legacy escape `\0` (sloppy strings only, see Goal)                      *)
 SeqOK(s, q) ==
-  \A i \in 1..(Len(s) - 1) :
-    ~(IsTpl(q) /\ s[i] = Elem("dollar", "raw") /\ s[i + 1] = Elem("lbrace", "raw"))
+  /\ \A i \in 1..(Len(s) - 1) :
+       ~(IsTpl(q) /\ s[i] = Elem("dollar", "raw") /\ s[i + 1] = Elem("lbrace", "raw"))
+  /\ \A i \in 1..(Len(s) - 1) :
+       (s[i] = Elem("nul", "bs") /\ StartsWithDigit(s[i + 1])) => (~IsTpl(q) /\ s[i + 1][1] \in {"d8", "d9"})
+
+(* "sloppy": the body is only valid in sloppy-mode code (Annex B escapes) *)
+Goal(s, q) ==
+  IF \E i \in 1..Len(s) : s[i][2] = "oct" \/ (i < Len(s) /\ s[i] = Elem("nul", "bs") /\ StartsWithDigit(s[i + 1]))
+  THEN "sloppy" ELSE "any"
 
 (* The value: concatenated units; in templates a raw <CR> is <LF> and raw <CR><LF> is one <LF> (TV) *)
 RECURSIVE UnitsOf(_, _, _)
@@ -82,18 +137,100 @@ Piece(e) ==
     [] e[2] = "x" -> [txt |-> c.x, raw |-> <<>>]
     [] e[2] = "u" -> [txt |-> c.u, raw |-> <<>>]
     [] e[2] = "ub" -> [txt |-> c.ub, raw |-> <<>>]
+    [] e[2] = "oct" -> [txt |-> c.oct, raw |-> <<>>]
 
-(* hazard labels of a body: the non-letter classes it contains and the adjacency hazards *)
+(***************************************************************************)
+(* Branch labels: every place where the right way to WRITE a code unit of  *)
+(* the value depends on its neighbours, on the quote kind or on the counts *)
+(* of the quote characters (ECMA-262 12.9.4: which escapes are legal where; *)
+(* HTML: `</script`).  They are stated over the VALUE (unit sequence u)    *)
+(* and the quote kind, so they hold for whatever spelling the input used.  *)
+(***************************************************************************)
+IsHi(x) == x \in 55296..56319
+IsLo(x) == x \in 56320..57343
+Lower(x) == IF x \in 65..90 THEN x + 32 ELSE x
+ScriptUnits == <<115, 99, 114, 105, 112, 116>>
+(* do the six units after position j spell `script` in any letter case? *)
+ScriptAfter(u, j) == j + 6 <= Len(u) /\ \A k \in 1..6 : Lower(u[j + k]) = ScriptUnits[k]
+UpperAfter(u, j) == \E k \in 1..6 : u[j + k] \in 65..90
+At(u, j) == IF j >= 1 /\ j <= Len(u) THEN u[j] ELSE -1
+
+UnitLabels(u, q, j) ==
+  LET x == u[j] nx == At(u, j + 1) pv == At(u, j - 1) t == IF IsTpl(q) THEN "tpl" ELSE "str" IN
+  (IF x = 0 THEN {IF nx = -1 THEN "nul-end" ELSE IF nx \in 48..55 THEN "nul-octdigit" ELSE IF nx \in 56..57 THEN "nul-89"
+                  ELSE IF nx = 47 THEN "nul-slash" ELSE IF nx = 58 THEN "nul-colon" ELSE "nul-other"} ELSE {})
+  \cup (IF x = 10 THEN {"lf-" \o t} ELSE {})
+  \cup (IF x = 13 THEN {"cr-" \o t} \cup (IF nx = 10 THEN {"adj-cr-lf"} ELSE {}) ELSE {})
+  \cup (IF x = 47 /\ pv = 60 THEN
+          (IF ScriptAfter(u, j) THEN {"lt-slash-script-" \o t}
+                                      \cup (IF UpperAfter(u, j) THEN {"lt-slash-script-uppercase"} ELSE {})
+                                      \cup (IF j + 6 = Len(u) THEN {"lt-slash-script-at-end"} ELSE {"lt-slash-script-then-more"})
+           ELSE {"lt-slash-nomatch"})
+        ELSE IF x = 47 /\ ScriptAfter(u, j) THEN {"slash-script-without-lt"} ELSE {})
+  \cup (IF x = 36 THEN {IF nx = 123 THEN "dollar-brace-" \o t ELSE IF nx = -1 THEN "dollar-end" ELSE "dollar-other"} ELSE {})
+  \cup (IF x \in {39, 34, 96} THEN {IF x = QuoteUnit(q) THEN "quote-own-" \o q ELSE "quote-other"} ELSE {})
+  \cup (IF x = 92 /\ nx \in {39, 34, 96} THEN {"adj-bslash-quote"} ELSE {})
+  \cup (IF IsHi(x) THEN {IF nx = -1 THEN "sur-hi-end" ELSE IF IsLo(nx) THEN "adj-surrogate-pair" ELSE IF IsHi(nx) THEN "sur-hi-hi" ELSE "sur-hi-other"} ELSE {})
+  \cup (IF IsLo(x) /\ ~IsHi(pv) THEN {"sur-lo-lone"} \cup (IF IsHi(nx) THEN {"sur-lo-hi"} ELSE {}) ELSE {})
+  \cup (IF x \in 128..255 THEN {"unit-80-ff"} ELSE {})
+  \cup (IF x > 255 /\ ~IsHi(x) /\ ~IsLo(x) THEN {"unit-above-ff"} ELSE {})
+
+(* the three counts a printer's quote choice can depend on, as a sign pattern: *)
+(* sign(#" - #'), sign(#' - #`), sign(#" - #`), where #` also counts `${`       *)
+Sign(a, b) == IF a > b THEN "gt" ELSE IF a < b THEN "lt" ELSE "eq"
+QuoteCost(u) ==
+  LET nd == Cardinality({j \in 1..Len(u) : u[j] = 34})
+      ns == Cardinality({j \in 1..Len(u) : u[j] = 39})
+      nb == Cardinality({j \in 1..Len(u) : u[j] = 96 \/ (u[j] = 36 /\ At(u, j + 1) = 123)}) IN
+  IF nd + ns + nb = 0 THEN {} ELSE {"qcost-" \o Sign(nd, ns) \o "-" \o Sign(ns, nb) \o "-" \o Sign(nd, nb)}
+
 AdjLabels(s, q) ==
   LET u == UnitsOf(s, q, 1) IN
-  {"adj-dollar-brace" : i \in {j \in 1..(Len(u) - 1) : u[j] = 36 /\ u[j + 1] = 123}}
-  \cup {"adj-nul-digit" : i \in {j \in 1..(Len(u) - 1) : u[j] = 0 /\ u[j + 1] = 49}}
-  \cup {"adj-surrogate-pair" : i \in {j \in 1..(Len(u) - 1) : u[j] = 55357 /\ u[j + 1] = 56832}}
-  \cup {"adj-bslash-quote" : i \in {j \in 1..(Len(u) - 1) : u[j] = 92 /\ u[j + 1] \in {39, 34, 96}}}
-  \cup {"adj-cr-lf" : i \in {j \in 1..(Len(u) - 1) : u[j] = 13 /\ u[j + 1] = 10}}
+  UNION {UnitLabels(u, q, j) : j \in 1..Len(u)}
+  \cup QuoteCost(u)
   \cup {"tpl-cr-normalised" : i \in {j \in 1..Len(s) : IsTpl(q) /\ s[j] = Elem("cr", "raw")}}
   \cup {"both-quotes" : i \in {j \in 1..1 : \E a, b \in 1..Len(u) : u[a] = 39 /\ u[b] = 34}}
+  \cup {"legacy-nul-89" : i \in {j \in 1..(Len(s) - 1) : s[j] = Elem("nul", "bs") /\ StartsWithDigit(s[j + 1])}}
+  \cup {"legacy-octal-escape" : i \in {j \in 1..Len(s) : s[j][2] = "oct"}}
 BodyLabels(s, q) == ({s[i][1] : i \in 1..Len(s)} \ {"letter"}) \cup AdjLabels(s, q)
+
+(* the directive `use strict` is recognised only when it is written without escapes *)
+IsUseStrict(s) == Len(s) = 1 /\ s[1] = Elem("usestrict", "raw")
+
+(***************************************************************************)
+(* Program contexts a string / template body is placed in.  The program is *)
+(*   pre <open quote> bpre BODY bpost <close quote> post                   *)
+(* and the observed value is vpre \o units(BODY) \o vpost, read by `mode`:  *)
+(*   str  value of x           key  the only own key of x                  *)
+(*   tag  cooked/raw strings seen by the tag function                      *)
+(*   dir  completion value of the script (a directive is an expression     *)
+(*        statement) and whether the code after it is strict               *)
+(* strict = the literal sits in strict-mode code (sloppy-only bodies are   *)
+(* not placed there).  quick = used in the quick tier.                     *)
+(***************************************************************************)
+A14 == "aaaaaaaaaaaaaa"
+U14 == [i \in 1..14 |-> 97]
+LitCtx(n, qs, pre, bpre, bpost, post, vpre, vpost, mode, strict, quick) ==
+  [name |-> n, quotes |-> qs, pre |-> pre, bpre |-> bpre, bpost |-> bpost, post |-> post,
+   vpre |-> vpre, vpost |-> vpost, mode |-> mode, strict |-> strict, quick |-> quick]
+Contexts == {
+  LitCtx("expr",   {"sq", "dq", "tpl"}, "x = ", "", "", ";", <<>>, <<>>, "str", FALSE, TRUE),
+  LitCtx("key",    {"sq", "dq"}, "x = {", "", "", ": 1};", <<>>, <<>>, "key", FALSE, TRUE),
+  LitCtx("strict", {"sq", "dq", "tpl"}, "\"use strict\"; globalThis.x = ", "", "", ";", <<>>, <<>>, "str", TRUE, TRUE),
+  \* both quote characters in the value: a printer that counts quotes is pushed to the third quote kind
+  LitCtx("bothq",  {"sq", "dq"}, "x = ", "\\\"\\'", "", ";", <<34, 39>>, <<>>, "str", FALSE, TRUE),
+  \* 14 letters first: with a line limit of 20 columns the wrap position falls inside the body
+  LitCtx("wrap",   {"sq", "dq", "tpl"}, "x = ", A14, "", ";", U14, <<>>, "str", FALSE, TRUE),
+  LitCtx("dir",    {"sq", "dq"}, "", "", "", "; var s = (function () { return this === undefined; })();", <<>>, <<>>, "dir", FALSE, TRUE),
+  LitCtx("concat9", {"sq", "dq"}, "x = ", "", "", " + \"9\";", <<>>, <<57>>, "str", FALSE, TRUE),
+  LitCtx("hole",   {"tpl"}, "x = ", "", "${0}", ";", <<>>, <<48>>, "str", FALSE, TRUE),
+  LitCtx("tail",   {"tpl"}, "x = ", "${0}", "", ";", <<48>>, <<>>, "str", FALSE, TRUE),
+  LitCtx("mid",    {"tpl"}, "x = ", "${0}", "${9}", ";", <<48>>, <<57>>, "str", FALSE, FALSE),
+  LitCtx("arg",    {"sq", "dq"}, "x = String(", "", "", ", 0);", <<>>, <<>>, "str", FALSE, FALSE),
+  LitCtx("clsfield", {"sq", "dq", "tpl"}, "x = class { static f = ", "", "", " }.f;", <<>>, <<>>, "str", TRUE, FALSE),
+  LitCtx("clskey", {"sq", "dq"}, "x = (class { static ", "", "", " = 1 });", <<>>, <<>>, "key", TRUE, FALSE),
+  LitCtx("tag",    {"tag"}, "x = tag", "", "", ";", <<>>, <<>>, "tag", FALSE, TRUE),
+  LitCtx("tagstrict", {"tag"}, "\"use strict\"; globalThis.x = tag", "", "", ";", <<>>, <<>>, "tag", TRUE, FALSE) }
 
 (***************************************************************************)
 (* Regular-expression bodies: atoms (value judged by V8: source + flags).  *)
